@@ -1421,7 +1421,18 @@ func c12CrossTalk(w *core.W, j int) {
 				for i := range pay {
 					pay[i] = byte('a' + r.IntN(26))
 				}
-				if !signing { // the default accept policy allows two additional records: payload+OPT or OPT+TSIG
+				if !signing && c%4 == 1 {
+					// a payload record whose values are lists of addresses and opaque parameters (SVCB): every one of
+					// them has to have left the receive buffer by the time the buffer is recycled
+					v6 := make([]net.IP, 1+r.IntN(4))
+					for i := range v6 {
+						v6[i] = net.IP(append([]byte{0x20, 0x01, 0x0d, 0xb8, byte(c), byte(s)}, pay[:1]...))
+						v6[i] = append(v6[i], make([]byte, 16-len(v6[i]))...)
+						v6[i][15] = byte(i + 1)
+					}
+					m.Extra = append(m.Extra, &dns.HTTPS{SVCB: dns.SVCB{Hdr: dns.RR_Header{Name: "payload.", Rrtype: dns.TypeHTTPS, Class: 1}, Priority: 1, Target: ".",
+						Value: []dns.SVCBKeyValue{&dns.SVCBAlpn{Alpn: []string{"h2", string(pay[:min(len(pay), 1+len(pay)%8)])}}, &dns.SVCBIPv4Hint{Hint: []net.IP{net.IPv4(192, 0, 2, byte(c)).To4()}}, &dns.SVCBIPv6Hint{Hint: v6}, &dns.SVCBLocal{KeyCode: 65400, Data: append([]byte(nil), pay...)}}}})
+				} else if !signing { // the default accept policy allows two additional records: payload+OPT or OPT+TSIG
 					m.Extra = append(m.Extra, &dns.TXT{Hdr: dns.RR_Header{Name: "payload.", Rrtype: dns.TypeTXT, Class: 1}, Txt: []string{string(pay)}})
 				}
 				// odd clients dial first and tell the handler which address they talk from: what the handler
